@@ -495,7 +495,8 @@ impl Property for C05 {
             vmodels: true,
             max_attrs: 4,
             max_children: 1,
-            max_depth: 1,
+            // (depth 2: attribute values may be JSX elements, next to v-model / v-models)
+            max_depth: 2,
             on_objects: false,
             component_weight: 5,
             tsx,
